@@ -1049,3 +1049,12 @@ M("c03-naive-visibility-second-half-skips-endpoints", "C03", "cola/libavoid/visi
   "            if (k->id == dummyOrthogID)\n            {\n                // Don't include orthogonal dummy vertices.\n                continue;\n            }\n            EdgeInf::checkEdgeVisibility(curr, k, knownNew);",
   "            if (k->id == dummyOrthogID)\n            {\n                // Don't include orthogonal dummy vertices.\n                continue;\n            }\n            if (k->id.isConnPt()) continue;\n            EdgeInf::checkEdgeVisibility(curr, k, knownNew);",
   mention=["NAIVE-VISIBILITY-COVERS-ALL"])
+
+# ---------------------------------------------------------------- round k
+MUTANTS.append({"id": "c10-crossing-flags-hoisted-out-of-the-pair-loop", "prop": "C10", "expect": "fire", "mention": ["PAIR-CONSTRAINTS-STATELESS"], "tu": None, "edits": [
+    {"file": "cola/libavoid/orthogonal.cpp", "old": "            Avoid::Polygon& route2 = connRoutes[ind2];\n            int crossings = 0;\n            unsigned int crossingFlags = 0;", "new": "            Avoid::Polygon& route2 = connRoutes[ind2];\n            int crossings = 0;", "count": 1},
+    {"file": "cola/libavoid/orthogonal.cpp", "old": "            continue;\n        }\n\n        for (size_t ind2 = ind1 + 1; ind2 < connRefs.size(); ++ind2)\n        {\n            ConnRef *conn2 = connRefs[ind2];\n            if (conn2->routingType() != ConnType_Orthogonal)\n            {\n                continue;\n            }\n\n            Avoid::Polygon& route = connRoutes[ind1];", "new": "            continue;\n        }\n\n        unsigned int crossingFlags = 0;\n        for (size_t ind2 = ind1 + 1; ind2 < connRefs.size(); ++ind2)\n        {\n            ConnRef *conn2 = connRefs[ind2];\n            if (conn2->routingType() != ConnType_Orthogonal)\n            {\n                continue;\n            }\n\n            Avoid::Polygon& route = connRoutes[ind1];", "count": 1}]})
+M("c10-fixed-order-only-without-bend-order", "C10", "cola/libavoid/orthogonal.cpp",
+  "            if (oneIsFixed && (lhsFixedOrder != rhsFixedOrder))\n            {\n                return lhsFixedOrder < rhsFixedOrder;\n            }\n",
+  "            if (oneIsFixed && (lhsFixedOrder != rhsFixedOrder) && (lhs->order() == rhs->order()))\n            {\n                return lhsFixedOrder < rhsFixedOrder;\n            }\n",
+  mention=["FIXED-ORDER-BEFORE-BEND-ORDER"])
